@@ -206,17 +206,34 @@ def required_targets(text):
     return targets
 
 
-def coq_eval_sharded(name, preamble, rows, rows_def, tail_lines, result_def, shard=120, timeout=1500):
+def coq_eval_sharded(name, preamble, rows, rows_def, tail_lines, result_def, shard=120, timeout=1500, parallel=1):
     """Like coq_eval for one list-valued result computed from a big list of rows: the rows are split into shards, one coqc
-    each (memory stays bounded), and the printed lists are concatenated.  rows_def: 'Definition rows : T := [%s].' """
-    out = []
-    total = 0.0
+    each (memory stays bounded), and the printed lists are concatenated.  rows_def: 'Definition rows : T := [%s].'
+    parallel > 1: that many coqc processes at a time."""
+    jobs = []
     for k in range(0, max(len(rows), 1), shard):
         part = rows[k:k + shard]
-        body = [rows_def % ";\n ".join(part)] + list(tail_lines)
-        vals, dt = coq_eval("%s_%d" % (name, k // shard), preamble, body, [result_def], timeout=timeout)
-        total += dt
-        out += parse_nat_list(re.sub(r'%N|%nat', '', parse_coq_value(vals[result_def])))
+        jobs.append(("%s_%d" % (name, k // shard), [rows_def % ";\n ".join(part)] + list(tail_lines)))
+
+    def work(job):
+        vals, dt = coq_eval(job[0], preamble, job[1], [result_def], timeout=timeout)
+        return parse_nat_list(re.sub(r'%N|%nat', '', parse_coq_value(vals[result_def]))), dt
+    out, total = [], 0.0
+    if parallel > 1 and len(jobs) > 1:
+        # (the imported modules are brought up to date once, before the workers start)
+        ok, mout = coq_make(required_targets(preamble))
+        if not ok:
+            raise Fail("building what %s imports failed:\n%s" % (name, json.dumps(first_coq_error(mout))))
+        from concurrent.futures import ThreadPoolExecutor
+        with ThreadPoolExecutor(max_workers=parallel) as ex:
+            for o, dt in ex.map(work, jobs):
+                out += o
+                total += dt
+    else:
+        for job in jobs:
+            o, dt = work(job)
+            out += o
+            total += dt
     return out, total
 
 
